@@ -44,6 +44,10 @@ SET_PARAMS = ["vP0", "vP1", "vP2", "vF0", "vI0", "vS0", "vSent"]
 
 def gen_plan(rng, index, tier):
     bp = {"rings": rng.choice([1, 2, 2]), "symmetry": "full", "nfuel": rng.choice([1, 2]), "plate": rng.random() < 0.3, "sfp": rng.random() < 0.7, "geom": "hex"}
+    if rng.random() < 0.25:
+        bp.update({"geom": "cartesian", "symmetry": rng.choice(["full", "quarter reflective through center assembly"])})
+        if bp["symmetry"] == "full" and rng.random() < 0.4:
+            bp["even"] = True  # a grid whose origin is a cell corner (non-zero offset)
     cfg = {"reactor": "gen", "blueprint": bp, "settings": {"nCycles": 1, "burnSteps": 1}, "actors": []}
     steps = []
     depth = 0
@@ -289,7 +293,10 @@ class Runner:
             comps[st["idx"] % len(comps)].setTemperature(st["T"])
             self.edits += 1
         elif op == "pitch" and not self.readonly:
-            r.core.spatialGrid.changePitch(st["pitch"])
+            if str(r.core.geomType).startswith("hex"):
+                r.core.spatialGrid.changePitch(st["pitch"])
+            else:
+                r.core.spatialGrid.changePitch(st["pitch"], st["pitch"] + 1.5)
             self.edits += 1
             self.probe("pitch_change_depth_%d" % min(depth, 3))
         elif op == "sfppitch" and not self.readonly:
